@@ -737,3 +737,86 @@ def fam_litmus_core(tier="quick"):
             L.append(litmus_line(f"lt{name}F{n}", shape, rl, fl))
             n += 1
     return L
+
+
+def fam_race_core(tier="quick"):
+    """F-race (C04): non-atomic accesses around every synchronisation idiom, 1-2 hops.
+    Main spawns the threads in order (thread id = body index)."""
+    L = []
+    n = [0]
+
+    def add(name, decls, bodies):
+        main = [f"sp {t}" for t in range(1, len(bodies) + 1)] + [f"jn {t}" for t in range(1, len(bodies) + 1)]
+        L.append(prog_line(f"rc{name}{n[0]}", decls, [main] + bodies))
+        n[0] += 1
+    ST = ["rlx", "rel", "sc"]
+    LD = ["rlx", "acq", "sc"]
+    FN = [None, "rel", "acq", "ar", "sc"]
+    # message passing through one atomic flag, with await, all orderings and fences
+    for so in ST:
+        for lo in LD:
+            for f1 in FN:
+                for f2 in FN:
+                    if (f1 or f2) and (so != "rlx" or lo != "rlx") and tier == "quick":
+                        continue
+                    w = ["cw 0"] + ([f"fn {f1}"] if f1 else []) + [f"st 1 1 {so}"]
+                    r = [f"aw 1 1 {lo}"] + ([f"fn {f2}"] if f2 else []) + ["cr 0"]
+                    add("MP", ["U", "A0"], [w, r])
+    # the same without waiting: the reader reads the cell whatever it saw
+    for so in ST:
+        for lo in LD:
+            add("MPn", ["U", "A0"], [["cw 0", f"st 1 1 {so}"], [f"ld 1 {lo}", "cr 0"]])
+    # write after the flag: always a race with a reader that waited
+    add("MPw", ["U", "A0"], [["st 1 1 rel", "cw 0"], ["aw 1 1 acq", "cr 0"]])
+    # release sequence through another thread's RMW
+    for ro in ["rlx", "rel", "acq", "ar", "sc"]:
+        add("RS", ["U", "A0"], [["cw 0", "st 1 1 rel"], [f"rmw 1 swap 2 {ro}"], ["aw 1 2 acq", "cr 0"]])
+        add("RSc", ["U", "A0"], [["cw 0", "st 1 1 rel"], [f"cas 1 1 2 {ro} rlx"], ["ld 1 acq", "cr 0"]])
+    # a plain store by another thread breaks the sequence
+    add("RSb", ["U", "A0"], [["cw 0", "st 1 1 rel"], ["st 1 2 rlx"], ["aw 1 2 acq", "cr 0"]])
+    # same-thread later relaxed store (C++20: not in the release sequence)
+    add("RSs", ["U", "A0"], [["cw 0", "st 1 1 rel", "st 1 2 rlx"], ["aw 1 2 acq", "cr 0"]])
+    # two hops
+    for o1 in [("rel", "acq"), ("rlx", "acq"), ("rel", "rlx"), ("sc", "sc")]:
+        for o2 in [("rel", "acq"), ("rlx", "rlx")]:
+            add("H2", ["U", "A0", "A0"], [["cw 0", f"st 1 1 {o1[0]}"], [f"aw 1 1 {o1[1]}", f"st 2 1 {o2[0]}"], [f"aw 2 1 {o2[1]}", "cr 0"]])
+    # locks
+    add("Mx", ["U", "M"], [["lk 1", "cw 0", "ul 1"], ["lk 1", "cr 0", "ul 1"]])
+    add("Mx", ["U", "M"], [["lk 1", "cw 0", "ul 1"], ["lk 1", "cw 0", "ul 1"], ["lk 1", "cr 0", "ul 1"]])
+    add("Mxr", ["U", "M"], [["lk 1", "cw 0", "ul 1"], ["cr 0"]])
+    add("Mxr", ["U", "M"], [["lk 1", "ul 1", "cw 0"], ["lk 1", "cr 0", "ul 1"]])
+    add("Mxt", ["U", "M"], [["lk 1", "cw 0", "ul 1"], ["tl 1", "cr 0", "ul 1"]])
+    add("Mx2", ["U", "M", "M"], [["lk 1", "cw 0", "ul 1"], ["lk 2", "cr 0", "ul 2"]])
+    add("Rw", ["U", "R"], [["wr 1", "cw 0", "uwr 1"], ["rd 1", "cr 0", "urd 1"], ["rd 1", "cr 0", "urd 1"]])
+    add("Rw", ["U", "R"], [["rd 1", "cr 0", "urd 1"], ["wr 1", "cw 0", "uwr 1"]])
+    add("Rwr", ["U", "R"], [["rd 1", "cw 0", "urd 1"], ["rd 1", "cr 0", "urd 1"]])
+    add("Rwo", ["U", "R"], [["rd 1", "cr 0", "yl", "urd 1"], ["rd 1", "yl", "cr 0", "urd 1"], ["wr 1", "cw 0", "uwr 1"]])
+    add("Rwo", ["U", "R"], [["rd 1", "cr 0", "yl", "urd 1"], ["rd 1", "cr 0", "urd 1"], ["yl", "wr 1", "cw 0", "uwr 1"]])
+    add("Mxy", ["U", "M"], [["lk 1", "cw 0", "yl", "ul 1"], ["lk 1", "yl", "cr 0", "ul 1"], ["lk 1", "cw 0", "ul 1"]])
+    add("Rwt", ["U", "R"], [["wr 1", "cw 0", "uwr 1"], ["trd 1", "cr 0", "urd 1"], ["twr 1", "cw 0", "uwr 1"]])
+    # channels
+    add("Ch", ["U", "H"], [["cw 0", "sd 1 5"], ["rv 1", "cr 0"]])
+    add("Ch", ["U", "H"], [["sd 1 5", "cw 0"], ["rv 1", "cr 0"]])
+    add("Ch2", ["U", "U", "H"], [["cw 0", "sd 2 5"], ["cw 1", "sd 2 6"], ["rv 2", "rv 2", "cr 0", "cr 1"]])
+    add("Ch2", ["U", "U", "H"], [["cw 0", "sd 2 5", "cw 1", "sd 2 6"], ["rv 2", "cr 0", "rv 2", "cr 1"]])
+    add("Cht", ["U", "H"], [["cw 0", "sd 1 5"], ["trv 1", "cr 0"]])
+    # park / unpark (thread 2 parks, thread 1 unparks it)
+    add("Pk", ["U", "A0"], [["cw 0", "up 2"], ["pk", "cr 0"]])
+    add("Pk", ["U", "A0"], [["up 2", "cw 0"], ["pk", "cr 0"]])
+    add("Pkn", ["U", "A0"], [["cw 0", "up 2"], ["ld 1 sc", "cr 0"]])
+    # spawn / join only (main writes before spawning, reads after joining)
+    L.append(prog_line(f"rcJn{n[0]}", ["U"], [["cw 0", "sp 1", "jn 1", "cr 0"], ["cr 0", "cw 0"]])); n[0] += 1
+    L.append(prog_line(f"rcJn{n[0]}", ["U"], [["sp 1", "cw 0", "jn 1"], ["cr 0"]])); n[0] += 1
+    L.append(prog_line(f"rcJn{n[0]}", ["U"], [["sp 1", "sp 2", "jn 1", "jn 2", "cr 0"], ["cw 0"], ["cr 0"]])); n[0] += 1
+    # fences only
+    add("Fsc", ["U", "A0"], [["cw 0", "fn sc", "st 1 1 rlx"], ["aw 1 1 rlx", "fn sc", "cr 0"]])
+    add("Fsc", ["U", "A0"], [["cw 0", "fn sc"], ["fn sc", "cr 0"]])
+    # atomics accessed without synchronisation (unsync_load / with_mut)
+    for so in ST:
+        add("Us", ["A0", "A0"], [[f"st 0 1 {so}", f"st 1 1 {so}"], ["aw 1 1 acq", "usl 0"]])
+        add("Us", ["A0", "A0"], [["wm 0 7", f"st 1 1 {so}"], ["aw 1 1 acq", "ld 0 rlx"]])
+    add("Us", ["A0"], [["st 0 1 rlx"], ["usl 0"]])
+    add("Us", ["A0"], [["ld 0 rlx"], ["wm 0 3"]])
+    add("Us", ["A0"], [["usl 0"], ["usl 0"]])
+    add("Us", ["A0"], [["wm 0 3"], ["wm 0 4"]])
+    return L
